@@ -1017,8 +1017,15 @@ def _t2_rebind(rel, tree, ref_funcs, ref_rebinds, notes, only=None):
                 continue
             st = stmts[0]
             v = st.targets[0].id
+            # (`v = v`, left behind by an expanded helper, is not a binding)
+            selfs = {id(a.targets[0]) for a in ast.walk(f)
+                     if isinstance(a, ast.Assign) and len(a.targets) == 1
+                     and isinstance(a.targets[0], ast.Name)
+                     and isinstance(a.value, ast.Name)
+                     and a.value.id == a.targets[0].id}
             stores = [n for n in ast.walk(f) if isinstance(n, ast.Name)
-                      and n.id == v and isinstance(n.ctx, (ast.Store, ast.Del))]
+                      and n.id == v and isinstance(n.ctx, (ast.Store, ast.Del))
+                      and id(n) not in selfs]
             if len(stores) != 1:
                 continue
             inside = {id(n) for n in ast.walk(st)}
